@@ -323,7 +323,14 @@ class Interp:
             return list(v.keys())
         if isinstance(v, SSet):
             self.set_iterations.append(node)
-            return list(v.items)
+            items = list(v.items)
+            # a set has no order: which one an iteration observes is a parameter of the evaluation
+            mode = (World.trace or {}).get("set_order", "insertion") if World.trace is not None else "insertion"
+            if mode == "reversed":
+                items.reverse()
+            elif mode == "rotated" and len(items) > 1:
+                items = items[1:] + items[:1]
+            return items
         if isinstance(v, Elem):
             return list(v.children)
         if isinstance(v, range):
@@ -692,6 +699,8 @@ class Frame:
         if isinstance(op, ast.Add):
             if is_strlike(a) and is_strlike(b):
                 return concat(a, b)
+            if type(a).__name__ == "PosMark" and isinstance(b, int) and not isinstance(b, bool):
+                return a + b  # a position found by index()/rindex(), moved inside its literal part
             if isinstance(a, bool) or isinstance(b, bool):
                 a, b = int(a) if isinstance(a, bool) else a, int(b) if isinstance(b, bool) else b
             if isinstance(a, int) and isinstance(b, int):
